@@ -1008,26 +1008,52 @@ func scenC16(g *Gen, dir string) ([]*Op, func(e *Env, i int, op *Op, obs []strin
 		if !(m.Legacy || m.LegacyAll) && !hasCurrent {
 			return &Violation{Prop: "C16", Key: "C16:current-satisfied-by-legacy", What: "a non-legacy verification request succeeded on an image without current-format signatures", Op: i}
 		}
-		// legacy soundness on generated images: verified content is what was signed
-		if (m.Legacy || m.LegacyAll) && objData != nil {
+		// legacy soundness: the content of the covered objects hashes to the digest in the
+		// clear-signed plaintext of the signature that was accepted (made by a trusted key)
+		if m.Legacy || m.LegacyAll {
+			plains := map[uint32][]byte{}
+			for _, l := range e.factLines() {
+				if strings.HasPrefix(l, "sf ") {
+					var id uint32
+					fmt.Sscan(fieldOf(l, "id"), &id)
+					p, _ := hex.DecodeString(strings.ReplaceAll(fieldOf(l, "plain"), "-", ""))
+					plains[id] = p
+				}
+			}
 			for _, l := range obs[1:] {
+				var sid uint32
+				fmt.Sscan(fieldOf(l, "sig"), &sid)
 				ids := strings.Split(fieldOf(l, "verified"), ",")
-				var cat, orig []byte
+				var cat []byte
 				for _, x := range ids {
 					var id uint32
 					if _, err := fmt.Sscan(x, &id); err != nil {
 						continue
 					}
-					d, err := e.f.GetDescriptor(sif.WithID(id))
-					if err != nil {
-						continue
-					}
-					b, _ := d.GetData()
-					cat = append(cat, b...)
-					orig = append(orig, objData[id]...)
+					e.f.WithDescriptors(func(d sif.Descriptor) bool {
+						if d.ID() == id && d.DataType() != sif.DataSignature {
+							b, _ := d.GetData()
+							cat = append(cat, b...)
+							return true
+						}
+						return false
+					})
 				}
-				if !bytes.Equal(cat, orig) {
-					return &Violation{Prop: "C16", Key: "C16:legacy-content", What: fmt.Sprintf("legacy verification succeeded over objects %v whose content is not what was signed", ids), Op: i}
+				want := strings.TrimSuffix(strings.TrimPrefix(string(plains[sid]), "SIFHASH:\n"), "\n")
+				var got string
+				switch len(want) {
+				case 96:
+					x := sha512.Sum384(cat)
+					got = hex.EncodeToString(x[:])
+				case 128:
+					x := sha512.Sum512(cat)
+					got = hex.EncodeToString(x[:])
+				default:
+					x := sha256.Sum256(cat)
+					got = hex.EncodeToString(x[:])
+				}
+				if !strings.EqualFold(got, want) {
+					return &Violation{Prop: "C16", Key: "C16:legacy-content", What: fmt.Sprintf("legacy verification by signature %d succeeded over objects %v whose content does not hash to the signed digest", sid, ids), Op: i}
 				}
 			}
 		}
